@@ -1,24 +1,43 @@
 (* Properties/C10.v — Retained state never aliases the caller's packet buffer.
-   Only statements, each closed by [exact] of a lemma proved in Proofs/Alias.v. *)
+   Only statements, each closed by [exact] of a lemma proved in Proofs/Alias.v.
+
+   Model (Model/Alias.v): every byte-string field retained by the session
+   (host/MAC tables, learned names) and by the handlers (DHCP leases, router
+   table with its NDP options, DNS table, mDNS cache) is an [rv] = Owned bytes
+   | Ref buffer offset length; receive buffers live in a store that the caller
+   may overwrite between two library calls; every later output (table dumps,
+   notifications, DHCP replies, decline/release frames, purge probes) reads
+   retained fields through [deref store]. *)
 From PV Require Import Base.Prelude Base.Text Model.Alias Proofs.Alias.
 
-(* Invariant over every history (frames arriving in any buffers, any scribbles
-   in between, any library calls): no retained field is a sub-slice of a
-   receive buffer. *)
+(* Invariant over every history (frames of every handled kind arriving in any
+   buffers, any scribbles in between, any library calls): no retained field is
+   a sub-slice of a receive buffer. *)
 Theorem C10_no_ref : forall c h, no_ref (w_state (erun c h)) = true.
 Proof. exact no_ref_invariant. Qed.
 Print Assumptions C10_no_ref.
 
-(* General lemma: on a NoRef state the observation does not depend on the buffer store. *)
+(* every retention point of the transcription copies (Owned) *)
+Theorem C10_every_retention_point_copies : forall k, copies k = true.
+Proof. exact copies_all. Qed.
+Print Assumptions C10_every_retention_point_copies.
+
+(* General lemma: on a NoRef state the observation of the tables does not depend on the buffer store... *)
 Theorem C10_no_ref_observe_indep : forall s1 s2 st, no_ref st = true -> dump s1 st = dump s2 st.
 Proof. exact no_ref_observe_indep. Qed.
 Print Assumptions C10_no_ref_observe_indep.
 
+(* ...and neither does any single call (new state and everything it emits), nor on the buffer the frame sits in. *)
+Theorem C10_no_ref_step_indep : forall c s1 s2 b1 b2 frame k st,
+  no_ref st = true -> rstep c s1 b1 frame k st = rstep c s2 b2 frame k st.
+Proof. exact no_ref_step_indep. Qed.
+Print Assumptions C10_no_ref_step_indep.
+
 (* Noninterference, general form: two histories with the same packet-level
    content (the same frames and library calls in the same order) produce the
-   same transcript (all per-call outputs and the final table dump), whatever
-   buffers the frames were delivered in and whatever the caller wrote over
-   them between the calls. *)
+   same transcript (all per-call outputs: notifications, replies, probes,
+   dumps; and the final dump of every table), whatever buffers the frames were
+   delivered in and whatever the caller wrote over them between the calls. *)
 Theorem C10_noninterference : forall c h1 h2, proj h1 = proj h2 -> transcript c h1 = transcript c h2.
 Proof. exact noninterference. Qed.
 Print Assumptions C10_noninterference.
@@ -31,13 +50,19 @@ Theorem C10_shared_equals_fresh : forall c scr p,
 Proof. exact shared_equals_fresh. Qed.
 Print Assumptions C10_shared_equals_fresh.
 
-(* every retention point of the transcription copies *)
-Theorem C10_every_retention_point_copies : forall k, copies k = true.
-Proof. exact copies_all. Qed.
-Print Assumptions C10_every_retention_point_copies.
+(* Sharpness: NoRef is what carries the theorems; a state holding a single Ref
+   (what a retention point without its copy produces) is observably changed by
+   overwriting the buffer. *)
+Theorem C10_ref_state_observable :
+  no_ref ex_ref_state = false /\
+  dump [{| b_pre := [0;0;0;0;0;0;2;0;0;0;0;1]; b_fill := 0; b_stp := 0 |}] ex_ref_state <>
+  dump [{| b_pre := []; b_fill := 165; b_stp := 0 |}] ex_ref_state.
+Proof. exact ref_state_observable. Qed.
+Print Assumptions C10_ref_state_observable.
 
-(* non-vacuity: a concrete shared-buffer history that creates a host from a frame *)
+(* non-vacuity: a concrete shared-buffer history reaching a non-trivial NoRef state *)
 Example C10_example_history :
-  List.length (st_hosts (w_state (erun std_cfg (shared_run (fun _ => {| b_pre := []; b_fill := 165; b_stp := 0 |}) 0 ex_hist)))) = 3%nat.
+  let st := w_state (erun std_cfg (shared_run ex_scr 0 ex_hist)) in
+  List.length (st_hosts st) = 3%nat /\ List.length (st_macs st) = 3%nat /\ no_ref st = true.
 Proof. exact ex_hist_creates_host. Qed.
 Print Assumptions C10_example_history.
